@@ -3896,7 +3896,9 @@ func (c *Compiler) getWasmGlobalValue(index wasm.Index, forceLoad bool) ssa.Valu
 	opaqueOffset := c.offset.GlobalInstanceOffset(index)
 
 	builder := c.ssaBuilder
-	if !forceLoad {
+	// Imported globals are never cached: two imports can alias the same global instance, so a
+	// write through one index must be visible through the other.
+	if !forceLoad && index >= c.m.ImportGlobalCount {
 		if v := builder.FindValueInLinearPath(variable); v.Valid() {
 			return v
 		}
